@@ -282,6 +282,8 @@ def lit_text(v: Any) -> str:
 
 def print_def(d, ind: int, out: List[str], semi=lambda: "") -> None:
     pad = "    " * ind
+    for c in getattr(d, "comments", None) or []:  # a comment block in front of the definition (becomes a doc comment)
+        out.append(f"{pad}// {c}")
     if isinstance(d, ConstDef):
         out.append(f"{pad}const {d.name} = {d.expr if d.expr is not None else lit_text(d.value)}{semi()}")
         return
@@ -299,10 +301,34 @@ def print_def(d, ind: int, out: List[str], semi=lambda: "") -> None:
         for n in d.nested:
             print_def(n, ind + 1, out, semi)
         for f in d.fields:
+            for c in getattr(f, "comments", None) or []:
+                out.append(f"{pad}    // {c}")
             out.append(f"{pad}    {type_text(f.type, d)} {f.name} = {f.num}{semi()}")
         out.append(f"{pad}}}")
     else:
         raise TypeError(d)
+
+
+TRICKY_COMMENTS = ['One reading of the so-called "probe"', "ends with a backslash \\", 'triple """ quotes inside', "it's got an apostrophe",
+                   "percent %s %d and {braces}", "*/ closes nothing here /*", "trailing spaces   ", "unicode: é 漢 ✓", "#hash and // slashes",
+                   "'" * 3, '"', "\\n is not a newline", "a", "TODO(someone): fix <this> & that"]
+
+
+def sprinkle_comments(s: "Schema", rng: random.Random, p: float = 0.3) -> None:
+    """comment blocks (one or two lines) in front of some definitions and fields of every file of the program"""
+    def walk(d) -> None:
+        if rng.random() < p:
+            d.comments = [rng.choice(TRICKY_COMMENTS) for _ in range(rng.choice([1, 1, 2]))]
+        if isinstance(d, MsgDef):
+            for n in d.nested:
+                walk(n)
+            for f in d.fields:
+                if rng.random() < p / 2:
+                    f.comments = [rng.choice(TRICKY_COMMENTS)]
+
+    for f in s.all_files():
+        for d in f.defs:
+            walk(d)
 
 
 def schema_text(s: Schema, rng: Optional[random.Random] = None) -> str:
